@@ -20,6 +20,7 @@ class EnsembleSampler:
         # harness owns it through CONFIG["emcee_seed"]
         self._random = np.random.RandomState(CONFIG["emcee_seed"])
         self._chain = None
+        self._lp = None
         self._acc = None
         CONFIG.setdefault("constructed", []).append({"pkg": "emcee", "moves": moves, "args": self._args})
 
@@ -42,7 +43,25 @@ class EnsembleSampler:
 
     def run_mcmc(self, initial_state, nsteps, progress=False, **kwargs):
         z0 = np.asarray(initial_state.detach().cpu().numpy() if hasattr(initial_state, "detach") else initial_state)
-        chain, acc = run_kernel(self._logp, z0, nsteps, rng=self._random, numpy_io=True)
+        lps = []
+
+        def logp(z):
+            v = self._logp(z)
+            lps.append(np.asarray(v, dtype=np.float64).reshape(-1))
+            return v
+
+        chain, acc = run_kernel(logp, z0, nsteps, rng=self._random, numpy_io=True)
+        lps = [l for l in lps if len(l) == z0.shape[0]]  # ignore evaluations made by harness probes
+        # log-probability of the *accepted* state at every stored step (what emcee's get_log_prob returns)
+        cur = lps[0].copy() if lps else np.full(z0.shape[0], np.nan)
+        stored = []
+        for t in range(1, len(chain)):
+            prop = lps[t] if t < len(lps) else cur
+            moved = np.any(chain[t] != chain[t - 1], axis=-1)
+            cur = np.where(moved, prop, cur)
+            stored.append(cur.copy())
+        if stored:
+            self._lp = np.stack(stored) if self._lp is None else np.concatenate([self._lp, np.stack(stored)])
         self._chain = chain[1:] if self._chain is None else np.concatenate([self._chain, chain[1:]])
         moved = np.any(chain[1:] != chain[:-1], axis=-1)
         self._acc = moved.mean(axis=0) if len(moved) else np.zeros(z0.shape[0])
@@ -57,6 +76,10 @@ class EnsembleSampler:
         if flat:
             return c.reshape(-1, c.shape[-1])
         return c
+
+    def get_log_prob(self, flat=False, discard=0, thin=1):
+        lp = self._lp[discard::thin]
+        return lp.reshape(-1) if flat else lp
 
     def get_autocorr_time(self, quiet=False, discard=0, **kwargs):
         return np.ones(self.ndim)
